@@ -56,20 +56,24 @@ def run(tier, work):
     for gr in graphs:
         dl, _ = K.render(gr, K.PLAIN)
         ql, _ = K.query_lines(gr, K.PLAIN)
-        texts.append(("classes", "\n".join(dl + ql) + "\n"))
+        texts.append(("classes#%d" % len(texts), "\n".join(dl + ql) + "\n"))
     # the same class group under two different modules: same class and method names, identical signatures, two frames
     two = graphs[:6 if tier == "quick" else 60]
     for gi, gr in enumerate(two):
         # the same group twice, and two DIFFERENT groups (same class names, other superclasses / modules), under two modules
-        for other in (gr, two[(gi + 1) % len(two)]):
+        for oi, other in enumerate((gr, two[(gi + 1) % len(two)])):
             lines = []
-            for mod, g2 in (("Outer", gr), ("Inner", other)):
+            # module names that sort behind the class names (Outer / Inner) and in front of them (Aa / Ab)
+            m1, m2 = ("Outer", "Inner") if (gi + oi) % 2 == 0 else ("Aa", "Ab")
+            for mod, g2 in ((m1, gr), (m2, other)):
                 dl, _ = K.render(g2, K.PLAIN, wrap=[mod])
                 lines += dl
-            for mod, g2 in (("Outer", gr), ("Inner", other)):
+            for mod, g2 in ((m1, gr), (m2, other)):
                 ql, _ = K.query_lines(g2, K.PLAIN, prefix=mod + "::")
                 lines += ql
-            texts.append(("classes-two-frames", "\n".join(lines) + "\n"))
+            texts.append(("classes-two-frames#%d" % len(texts), "\n".join(lines) + "\n"))
+    if len({t for t, _ in texts}) != len(texts):
+        raise C.HarnessError("program tags are not unique: outputs of different programs would be compared")
     nbb = 3
     nw = 2 if tier == "quick" else 6
     bjobs, wjobs = [], []
